@@ -634,7 +634,7 @@ func (e *Eng) execInstr(fr *Frame, b *ssa.BasicBlock, ins ssa.Instruction, st *S
 		case *types.Slice:
 			e.oblige("index", descr(x.X, 0)+"["+descr(x.Index, 0)+"]", e.safety(fr), x.Pos(), g,
 				and(sx("<=", "0", idx.T), sx("<", idx.T, sx("s_len", base.T))))
-			l = &Loc{Kind: LElem, Base: sx("s_arr", base.T), IdxT: sx("+", sx("s_off", base.T), idx.T), ET: u.Elem()}
+			l = &Loc{Kind: LElem, Base: sx("s_arr", base.T), IdxT: idxAt(sx("s_off", base.T), idx.T), ET: u.Elem()}
 		case *types.Pointer:
 			arr := u.Elem().Underlying().(*types.Array)
 			e.oblige("nil", descr(x.X, 0), e.safety(fr), x.Pos(), g, not(eq(base.T, "0")))
@@ -1291,7 +1291,7 @@ func (e *Eng) strOfBytesAxiom(str, arr, off string) {
 	if !e.wantBytes() {
 		return
 	}
-	e.sc.assume(fmt.Sprintf("(forall ((i Int)) (! (=> (and (<= 0 i) (< i (strlen %s))) (= (strat %s i) (select %s (+ %s i)))) :pattern ((strat %s i))))", str, str, arr, off, str), "string of bytes elementwise")
+	e.sc.assume(fmt.Sprintf("(forall ((i Int)) (! (=> (and (<= 0 i) (< i (strlen %s))) (= (strat %s i) (select %s (at %s i)))) :pattern ((strat %s i))))", str, str, arr, off, str), "string of bytes elementwise")
 }
 
 func (e *Eng) wantBytes() bool {
